@@ -1,25 +1,72 @@
-use ropey::Rope;
-
 use syntax::parser::TextSize;
 
+/// Maps byte offsets to (line, UTF-16 column) positions and back.
+///
+/// A line ends after `"\n"`, `"\r\n"` or a lone `"\r"`; no other character is a line break.
 #[derive(Debug, Eq, PartialEq)]
 pub struct LineIndex {
-    rope: Rope,
+    text: Box<str>,
+    /// byte offset of the first character of every line
+    line_starts: Vec<TextSize>,
 }
 
 impl LineIndex {
     pub fn new(text: &str) -> Self {
+        let bytes = text.as_bytes();
+        let mut line_starts = vec![TextSize::from(0)];
+        for (i, &b) in bytes.iter().enumerate() {
+            let is_line_end = b == b'\n' || (b == b'\r' && bytes.get(i + 1) != Some(&b'\n'));
+            if is_line_end {
+                line_starts.push(TextSize::try_from(i + 1).expect("text is too large"));
+            }
+        }
         Self {
-            rope: Rope::from_str(text),
+            text: text.into(),
+            line_starts,
         }
     }
 
     pub fn pos_to_line(&self, pos: TextSize) -> usize {
-        self.rope.char_to_line(pos.into())
+        self.line_starts.partition_point(|&start| start <= pos) - 1
     }
 
+    /// Start of `line`; a line past the last one starts at the end of the text.
     pub fn line_to_pos(&self, line: usize) -> TextSize {
-        let pos = self.rope.line_to_char(line);
-        TextSize::try_from(pos).expect("line index out of bounds")
+        match self.line_starts.get(line) {
+            Some(&start) => start,
+            None => TextSize::of(&*self.text),
+        }
+    }
+
+    /// UTF-16 column of `pos` within its line.
+    pub fn pos_to_col(&self, pos: TextSize) -> u32 {
+        let line_start = usize::from(self.line_to_pos(self.pos_to_line(pos)));
+        let mut end = usize::from(pos).min(self.text.len());
+        while !self.text.is_char_boundary(end) {
+            end -= 1;
+        }
+        self.text[line_start..end]
+            .chars()
+            .map(|c| c.len_utf16() as u32)
+            .sum()
+    }
+
+    /// Byte offset of the UTF-16 column `col` of `line`. A column past the end of the line
+    /// means the end of the line; a column inside a surrogate pair means the start of that
+    /// character.
+    pub fn line_col_to_pos(&self, line: usize, col: u32) -> TextSize {
+        let start = usize::from(self.line_to_pos(line));
+        let end = usize::from(self.line_to_pos(line.saturating_add(1)));
+        let mut pos = start;
+        let mut col_left = col;
+        for c in self.text[start..end].chars() {
+            let width = c.len_utf16() as u32;
+            if col_left < width {
+                break;
+            }
+            col_left -= width;
+            pos += c.len_utf8();
+        }
+        TextSize::try_from(pos).expect("text is too large")
     }
 }
